@@ -712,6 +712,26 @@ def build_kwargs(fn, args_spec, structure):
     return kwargs, unmatched, mapping
 
 
+async def discovery_call(pkg, cl, fn, rec, structure, unstructure):
+    """Dummy call used to learn which operation a method serves; retried with a dummy body when the first attempt sent nothing
+    (overloaded methods insist on one of body/data/files)."""
+    kwargs, _, _ = build_kwargs(fn, [], structure)
+    r = await call_method(pkg, cl, fn, kwargs, rec, {"status": 200, "json": {}}, unstructure)
+    if not r["requests"]:
+        try:
+            hints = typing.get_type_hints(fn)
+        except BaseException:  # noqa
+            hints = {}
+        for p in inspect.signature(fn).parameters.values():
+            if p.name in ("body", "data", "files", "form_data", "bytes_content") and p.name not in kwargs:
+                kw2 = dict(kwargs)
+                kw2[p.name] = dummy(hints.get(p.name, typing.Any))
+                r2 = await call_method(pkg, cl, fn, kw2, rec, {"status": 200, "json": {}}, unstructure)
+                if r2["requests"]:
+                    return r2
+    return r
+
+
 async def discover(job, p):
     """Call every public coroutine / async-generator method of every tag client once with dummy arguments and
     record which (HTTP method, path) it hit."""
@@ -731,8 +751,7 @@ async def discover(job, p):
             out["errors"].append(dict(exc_info(cl), tag=tag))
             continue
         for name, fn in public_methods(cl).items():
-            kwargs, _, _ = build_kwargs(fn, [], structure)
-            r = await call_method(pkg, cl, fn, kwargs, rec, {"status": 200, "json": {}}, unstructure)
+            r = await discovery_call(pkg, cl, fn, rec, structure, unstructure)
             out["methods"].append({"tag": tag, "cls": type(cl).__name__, "method": name, "nature": nature(fn),
                                    "requests": [[q["method"], q["path"]] for q in r["requests"]],
                                    "outcome_kind": r["outcome"]["kind"],
@@ -764,8 +783,7 @@ async def run_calls(job, p):
         if isinstance(cl, BaseException):
             continue
         for name, fn in public_methods(cl).items():
-            kwargs, _, _ = build_kwargs(fn, [], structure)
-            r = await call_method(pkg, cl, fn, kwargs, rec, {"status": 200, "json": {}}, unstructure)
+            r = await discovery_call(pkg, cl, fn, rec, structure, unstructure)
             for q in r["requests"]:
                 parts = [s for s in q["path"].split("/") if s]
                 if parts:
